@@ -33,7 +33,7 @@ class C19(CheckBase):
     expected_probes = ['provider_tls', 'consumer_enforced', 'consumer_optional', 'shared_server', 'alt_hostname', 'restart',
                        'fallback_to_plaintext_seen', 'enforced_refused_plaintext_peer', 'downgrade_attempt',
                        'downgrade_refused', 'tls_provider_on_plaintext_shared_server', 'plaintext_probe_requests',
-                       'retry_refused']
+                       'retry_refused', 'tls_probe_other_host_name']
     max_steps = 6_000_000
 
     def budget(self, tier):
@@ -51,7 +51,7 @@ class C19(CheckBase):
         ops = [op for op in (g.gen_op(kinds=['metric', 'alert', 'context']) for _ in range(rng.randint(1, 4))) if op]
         return {'sched': draw_sched_config(rng, line_ok=False), 'world': cfg, 'cell': cell, 'ops': ops,
                 'restart': rng.random() < 0.4, 'provider_tls_after_restart': rng.choice([None, None, False]),
-                'send_end': rng.random() < 0.8, 'downgrade': rng.random() < 0.5}
+                'send_end': rng.random() < 0.8, 'downgrade': rng.random() < 0.5, 'tls_probe': rng.random() < 0.4}
 
     # ------------------------------------------------------------------
     def body(self, ctx):
@@ -105,6 +105,13 @@ class C19(CheckBase):
             with s.no_preempt():
                 self._judge(ctx, w, cell, p_cont, None, None)
             return
+        if p_cont is not None and plan.get('tls_probe'):
+            # a TLS peer that addresses the provider by another name than the one it advertises (IP instead of the
+            # alternative host name, or the other way round) reads its metadata and subscribes
+            ctx.probe('tls_probe_other_host_name')
+            other = f'{worldb.PROVIDER_IP}:{prov._http_server.server_port}' if cell['alt_host'] else \
+                f'provider.sim:{prov._http_server.server_port}'
+            self._probe_plain(ctx, w, prov, tls=N.SimTLSContext('probe-client'), host=other)
         consumer_failed = None
         c = None
         ckw = {}
@@ -208,12 +215,13 @@ class C19(CheckBase):
         with s.no_preempt():
             self._judge(ctx, w, cell, p_cont, c_cont, c)
 
-    def _probe_plain(self, ctx, w, prov):
+    def _probe_plain(self, ctx, w, prov, tls=None, host=None):
         from lxml import etree
         from dsim import peers
         from dsim.xsd import NS
         paddr = (worldb.PROVIDER_IP, prov._http_server.server_port)
-        cl = peers.RawClient('10.0.0.7', paddr)
+        cl = peers.RawClient('10.0.0.7', paddr, tls=tls)
+        hdr = {'Host': host} if host else None
         base = f'/{prov.path_prefix}'
         reqs = [(base, 'http://schemas.xmlsoap.org/ws/2004/09/transfer/Get', [])]
         for svc in prov.hosted_services.dpws_hosted_services.values():
@@ -223,7 +231,7 @@ class C19(CheckBase):
         for path, action, body in reqs:
             n += 1
             try:
-                cl.post(path, peers.envelope(action, f'https://{paddr[0]}:{paddr[1]}{path}', body, f'urn:uuid:c19-probe-{n}'))
+                cl.post(path, peers.envelope(action, f'https://{paddr[0]}:{paddr[1]}{path}', body, f'urn:uuid:c19-probe-{n}'), hdr)
                 ctx.probe('plaintext_probe_requests')
             except (OSError, Exception):  # noqa: BLE001
                 pass
@@ -233,7 +241,7 @@ class C19(CheckBase):
         path = f'{base}/{svc.path_element}'
         try:
             cl.post(path, peers.mk_subscribe(f'https://{paddr[0]}:{paddr[1]}{path}', ep.url('/n0'),
-                                             [A.EpisodicMetricReport.value], expires=60, msg_id='urn:uuid:c19-probe-sub'))
+                                             [A.EpisodicMetricReport.value], expires=60, msg_id='urn:uuid:c19-probe-sub'), hdr)
             ctx.probe('plaintext_probe_requests')
         except (OSError, Exception):  # noqa: BLE001
             pass
